@@ -200,6 +200,36 @@ def two_site_chain_vs_dense(inp):
     return {'violates': bool(bad), 'detail': bad[:8]}
 
 
+def nn_gate_parameters(inp):
+    """every SVD of the two-site update is asked for the caller's relative tolerance (spy on tensornetwork.split_node_full_svd
+    during a short sequential PT-TEBD run)"""
+    import numpy as np
+    import oqupy
+    import oqupy.backends.pt_tebd_backend as be
+    real = be.tn.split_node_full_svd
+    calls = []
+
+    def spy(*a, **k):
+        calls.append(k)
+        return real(*a, **k)
+    eps = 1.0e-7
+    chain = oqupy.SystemChain(hilbert_space_dimensions=[2, 2, 2])
+    for n in range(3):
+        chain.add_site_hamiltonian(site=n, hamiltonian=0.3 * (n + 1) * oqupy.operators.sigma('x'))
+    for n in range(2):
+        chain.add_nn_hamiltonian(site=n, hamiltonian_l=0.5 * oqupy.operators.sigma('z'), hamiltonian_r=oqupy.operators.sigma('z'))
+    be.tn.split_node_full_svd = spy
+    try:
+        t = oqupy.PtTebd(initial_augmented_mps=oqupy.AugmentedMPS([oqupy.operators.spin_dm('z-')] * 3), system_chain=chain, process_tensors=[None] * 3,
+                         parameters=oqupy.PtTebdParameters(dt=0.1, order=2, epsrel=eps), dynamics_sites=[0], backend_config={})
+        t.compute(2, progress_type='silent')
+    finally:
+        be.tn.split_node_full_svd = real
+    bad = [{x: repr(k.get(x)) for x in ('max_singular_values', 'max_truncation_err', 'relative')} for k in calls
+           if k.get('max_truncation_err') != eps or k.get('relative') is not True or k.get('max_singular_values') is not None]
+    return {'violates': bool(bad) or not calls, 'SVD calls': len(calls), 'calls that do not carry (epsrel, relative=True)': bad[:3]}
+
+
 # thorough tier (bounded native sweeps): (function, inputs, obligation of the open finding it reproduces or None)
 THOROUGH = [('parallel_modes', {}, None), ('partial_trace_consistency', {}, None), ('query_between_steps', {}, None), ('uncoupled_chain_is_single_sites', {}, None),
-            ('two_site_chain_vs_dense', {}, None)]
+            ('two_site_chain_vs_dense', {}, None), ('nn_gate_parameters', {}, None)]
